@@ -307,4 +307,171 @@ theorem scan_sorted (l : List Bool) : ∀ (i : Nat) (st : Option Nat),
     · exact ih _ _
     · exact ih _ _
 
+/-- ring run expressed with the maximal linear runs of the window `[0, n)` -/
+def RingRunF (f : Nat → Bool) (n : Nat) (r : Nat × Nat) : Prop :=
+  (LinRun f 0 n r.1 r.2 ∧ ¬(r.1 = 0 ∧ f (n - 1) = true) ∧ ¬(r.2 = n ∧ f 0 = true)) ∨
+  (r.2 < r.1 ∧ LinRun f 0 n 0 r.2 ∧ LinRun f 0 n r.1 n)
+
+theorem linRun_first {f : Nat → Bool} {lo hi s e : Nat} (h : LinRun f lo hi s e) : f s = true :=
+  h.2.2.2.1 s (Nat.le_refl _) h.2.1
+
+theorem linRun_last {f : Nat → Bool} {lo hi s e : Nat} (h : LinRun f lo hi s e) :
+    f (e - 1) = true :=
+  h.2.2.2.1 (e - 1) (by have := h.2.1; omega) (by have := h.2.1; omega)
+
+theorem perm_of_nodup {α : Type} [DecidableEq α] {l₁ l₂ : List α} (h1 : l₁.Nodup)
+    (h2 : l₂.Nodup) (h : ∀ a, a ∈ l₁ ↔ a ∈ l₂) : l₁.Perm l₂ := by
+  rw [List.perm_iff_count]
+  intro a
+  rw [h1.count, h2.count]
+  simp only [h a]
+
+theorem merge_spec (f : Nat → Bool) (n : Nat) (L : List (Nat × Nat)) (hn : 0 < n)
+    (hmem : ∀ s e, (s, e) ∈ L ↔ LinRun f 0 n s e)
+    (hsort : L.Pairwise (fun a b => a.2 < b.1)) (hnf : ¬ LinRun f 0 n 0 n) :
+    (∀ r, r ∈ mergeRing n L ↔ RingRunF f n r) ∧ (mergeRing n L).Nodup := by
+  have hb : ∀ a, a ∈ L → a.1 < a.2 ∧ a.2 ≤ n := by
+    intro a ha
+    have := (hmem a.1 a.2).1 ha
+    exact ⟨this.2.1, this.2.2.1⟩
+  have hnd : L.Nodup := by
+    rw [List.nodup_iff_pairwise_ne]
+    refine List.Pairwise.imp_of_mem ?_ hsort
+    intro a b ha _ hab heq
+    have := (hb a ha).1
+    rw [heq] at hab this
+    omega
+  by_cases hc : f 0 = true ∧ f (n - 1) = true
+  · obtain ⟨s0', e0, hr0, hs0, _⟩ := linRun_exists f 0 n 0 (Nat.le_refl _) hn hc.1
+    have : s0' = 0 := by omega
+    subst this
+    obtain ⟨s1, e1', hr1, _, he1⟩ := linRun_exists f 0 n (n - 1) (Nat.zero_le _) (by omega) hc.2
+    have : e1' = n := by have := hr1.2.2.1; omega
+    subst this
+    have hm0 := (hmem _ _).2 hr0
+    have hm1 := (hmem _ _).2 hr1
+    have hne : e0 ≠ e1' := by
+      intro h; rw [h] at hr0; exact hnf hr0
+    rcases list_shape L with rfl | ⟨r, rfl⟩ | ⟨a, mid, b, rfl⟩
+    · simp at hm0
+    · simp only [List.mem_singleton] at hm0 hm1
+      rw [← hm0] at hm1
+      simp only [Prod.mk.injEq] at hm1
+      omega
+    · simp only [List.pairwise_cons, List.pairwise_append, List.mem_append, List.mem_cons,
+        List.Pairwise.nil, List.not_mem_nil, or_false, false_imp_iff, implies_true, true_and,
+        and_true] at hsort
+      obtain ⟨P1, P2, P3⟩ := hsort
+      have P3' : ∀ x, x ∈ mid → x.2 < b.1 := fun x hx => P3 x hx b rfl
+      have hbb := hb b (by simp)
+      have hba := hb a (by simp)
+      have ha : a = (0, e0) := by
+        simp only [List.mem_cons, List.mem_append, List.not_mem_nil, or_false] at hm0
+        rcases hm0 with h | h
+        · exact h.symm
+        · have := P1 _ h
+          simp at this
+      have hbe : b = (s1, e1') := by
+        simp only [List.mem_cons, List.mem_append, List.not_mem_nil, or_false] at hm1
+        rcases hm1 with h | h | h
+        · rw [ha] at h
+          simp only [Prod.mk.injEq] at h
+          omega
+        · have := P3' _ h
+          simp only at this
+          omega
+        · exact h.symm
+      have hperm : (mergeRing e1' (a :: (mid ++ [b]))).Perm (mid ++ [(s1, e0)]) := by
+        rw [mergeRing_snoc, if_pos (by rw [ha, hbe]; exact ⟨rfl, rfl⟩)]
+        have : (b.1, a.2) = (s1, e0) := by rw [ha, hbe]
+        rw [this]
+        exact List.Perm.append_right _ (swapRemove0_perm a mid)
+      have hlt : e0 < s1 := by
+        have := P1 b (Or.inr rfl)
+        rw [ha, hbe] at this
+        exact this
+      constructor
+      · intro r
+        rw [hperm.mem_iff]
+        simp only [List.mem_append, List.mem_cons, List.not_mem_nil, or_false]
+        constructor
+        · rintro (h | h)
+          · left
+            have hrL : r ∈ a :: (mid ++ [b]) := by simp [h]
+            have h1 := P1 r (Or.inl h)
+            have h2 := P3' r h
+            refine ⟨(hmem r.1 r.2).1 hrL, ?_, ?_⟩
+            · omega
+            · omega
+          · right
+            rw [h]
+            exact ⟨hlt, hr0, hr1⟩
+        · rintro (⟨h1, h2, h3⟩ | ⟨h1, h2, h3⟩)
+          · have hrL := (hmem _ _).2 h1
+            simp only [List.mem_cons, List.mem_append, List.not_mem_nil, or_false] at hrL
+            rcases hrL with h | h | h
+            · exfalso; apply h2
+              have : r.1 = 0 := by
+                have := congrArg Prod.fst h; rw [ha] at this; exact this
+              exact ⟨this, hc.2⟩
+            · exact Or.inl h
+            · exfalso; apply h3
+              have : r.2 = e1' := by
+                have := congrArg Prod.snd h; rw [hbe] at this; exact this
+              exact ⟨this, hc.1⟩
+          · right
+            have q1 := linRun_unique f 0 e1' 0 r.2 0 e0 0 h2 hr0 ⟨Nat.le_refl _, h2.2.1⟩
+              ⟨Nat.le_refl _, hr0.2.1⟩
+            have q2 := linRun_unique f 0 e1' r.1 e1' s1 e1' (e1' - 1) h3 hr1
+              ⟨by have := h3.2.1; omega, by omega⟩ ⟨by have := hr1.2.1; omega, by omega⟩
+            exact Prod.ext q2.1 q1.2
+      · rw [hperm.nodup_iff, List.nodup_append]
+        refine ⟨?_, by simp, ?_⟩
+        · have : mid.Sublist (a :: (mid ++ [b])) :=
+            (List.sublist_append_left mid [b]).trans (List.sublist_cons_self _ _)
+          exact hnd.sublist this
+        · intro x hx y hy hxy
+          simp only [List.mem_singleton] at hy
+          rw [hy] at hxy
+          have := hb x (by simp [hx])
+          rw [hxy] at this
+          simp only at this
+          omega
+  · have hmerge : mergeRing n L = L := by
+      rcases list_shape L with rfl | ⟨r, rfl⟩ | ⟨a, mid, b, rfl⟩
+      · rfl
+      · rfl
+      · rw [mergeRing_snoc, if_neg]
+        rintro ⟨h1, h2⟩
+        apply hc
+        have la := (hmem a.1 a.2).1 (by simp)
+        have lb := (hmem b.1 b.2).1 (by simp)
+        have fa := linRun_first la
+        have fb := linRun_last lb
+        rw [h1] at fa; rw [h2] at fb
+        exact ⟨fa, fb⟩
+    rw [hmerge]
+    refine ⟨?_, hnd⟩
+    intro r
+    have := hmem r.1 r.2
+    rw [this]
+    constructor
+    · intro h
+      left
+      refine ⟨h, ?_, ?_⟩
+      · rintro ⟨h1, h2⟩
+        have := linRun_first h
+        rw [h1] at this
+        exact hc ⟨this, h2⟩
+      · rintro ⟨h1, h2⟩
+        have := linRun_last h
+        rw [h1] at this
+        exact hc ⟨h2, this⟩
+    · rintro (⟨h1, _, _⟩ | ⟨_, h2, h3⟩)
+      · exact h1
+      · exfalso
+        apply hc
+        exact ⟨linRun_first h2, linRun_last h3⟩
+
+
 end AlphaG.Ranges
